@@ -769,6 +769,10 @@ func genCase(c *Ctx, p profile) {
 	if r.Chance(p.pSkip) {
 		g.skip = 1700000000 + int64(r.Intn(1000))
 		skip = fmt.Sprint(g.skip)
+		if r.Chance(50) {
+			// a skipUntil with a sub-second part (time.Now()-style): events of that very second lie BEFORE it
+			skip = fmt.Sprintf("%d.%09d", g.skip, 1+r.Intn(999999999))
+		}
 	}
 	colls := "-"
 	if r.Chance(50) {
